@@ -333,14 +333,21 @@ def r1_pad(ctx, repo):
     mod = cls.module
     P, L = sym("pad_length_"), sym("L")
     # ---- _create_pad(series)
-    it = mk_interp(repo)
-    selfv = SelfV(cls)
-    selfv.attrs.update(pad_length_=P, pad_length=sym("pad_length"))
     series = Src("series", "series", [L])
-    traces, fst, k, fn = run_method(repo, it, selfv, "_create_pad", {"series": series})
-    loc = ctx.loc(mod, fn)
-    c = "PaddingTransformer._create_pad"
-    s, buf = one_return(ctx, "R1", c + ":value", traces, loc)
+    for pscen, pval in (("", sym("pad_length")), ("[pad_length=None]", K(None))):
+        it = mk_interp(repo)
+        selfv = SelfV(cls)
+        selfv.attrs.update(pad_length_=P, pad_length=pval)
+        traces, fst, k, fn = run_method(repo, it, selfv, "_create_pad", {"series": series})
+        loc = ctx.loc(mod, fn)
+        c = "PaddingTransformer._create_pad" + pscen
+        s, buf = one_return(ctx, "R1", c + ":value", traces, loc)
+        if pscen:
+            ctx.check(None if buf is None or not isinstance(buf, Buf) else buf.shape == [P], "R1", c + ":length",
+                      "padded cell has the fitted length pad_length_ also when the option is None",
+                      "with pad_length=None the padded cell has length %r, expected the fitted pad_length_"
+                      % (getattr(buf, "shape", buf),), loc)
+            break
     if buf is not None:
         if not isinstance(buf, Buf):
             ctx.undecided("R1", c + ":value", "return value is not a fresh array: %r" % (buf,), loc)
@@ -488,13 +495,15 @@ def r1_truncate(ctx, repo):
         ctx.check(None if got is None or isinstance(got, Opq) else got == want, "R1",
                   "TruncationTransformer.fit[lower=%s]:lower_" % scen, "lower_ = %r" % (want,),
                   "lower_ is %r, expected %r" % (got, want), ctx.loc(mod, fn))
-    for scen, up, want in (("None", K(None), Rng(ZERO, LO)), ("given", UP, Rng(LO, UP))):
+    # the fitted lower_ decides the truncation whatever the raw option was (None = fitted from the data, or given)
+    for lscen, lval in (("given", sym("lower")), ("None", K(None))):
+      for scen, up, want in (("None", K(None), Rng(ZERO, LO)), ("given", UP, Rng(LO, UP))):
         it = mk_interp(repo)
         sv = SelfV(cls)
-        sv.attrs.update(lower_=LO, upper=up, lower=sym("lower"))
+        sv.attrs.update(lower_=LO, upper=up, lower=lval)
         traces, fst, k, fn = run_method(repo, it, sv, "transform", {"X": Src("X", "raw")})
         loc = ctx.loc(mod, fn)
-        c = "TruncationTransformer.transform[upper=%s]" % scen
+        c = "TruncationTransformer.transform[%supper=%s]" % ("" if lscen == "given" else "lower=None,", scen)
         rets = distinct_returns(traces)
         if not rets:
             ctx.undecided("R1", c + ":value", "transform has no normal return", loc)
@@ -1149,6 +1158,25 @@ def imputer_return(ctx, repo, it, c, name, ret, Z, loc):
     if not isinstance(core, CallV):
         ctx.violation("R2", c + ":operator", "no imputation operator is applied for %r: transform returns %r" % (name, ret), loc)
         return
+    if op == "fillna" and what == "self.method":
+        # forward / backward fill: fillna(method=<a name of the same direction>) or the direct pandas operator
+        direction = {"backfill": "b", "bfill": "b", "pad": "f", "ffill": "f"}
+        got_dir, shown = None, core
+        if core.recv == Z and core.name in direction and not core.args and not core.kwargs:
+            got_dir = direction[core.name]
+        elif core.recv == Z and core.name == "fillna":
+            b = bound(core, FILLNA_SIG)
+            mth = b.get("method")
+            if set(b) == {"method"} and isinstance(mth, K) and mth.v in direction:
+                got_dir = direction[mth.v]
+                shown = "fillna(method=%r)" % (mth.v,)
+        ctx.check(core.recv == Z and core.name in ("fillna",) + tuple(direction), "R2", c + ":operator",
+                  "%r -> forward / backward fill of Z" % name,
+                  "%r dispatches to %s on %r, documented a forward / backward fill of Z" % (name, core.name, core.recv), loc)
+        ctx.check(got_dir == direction[name], "R2", c + ":argument", "%r fills %s" % (name, "backward" if direction[name] == "b" else "forward"),
+                  "%r is documented as a %s fill but dispatches to %s" % (name, "backward" if direction[name] == "b" else "forward", shown),
+                  loc, witness={"operator": repr(core)})
+        return
     if op in ("fillna", "interpolate"):
         ok = core.name == op and core.recv == Z
         b = bound(core, FILLNA_SIG if op == "fillna" else INTERPOLATE_SIG) if core.name == op else {}
@@ -1779,11 +1807,78 @@ def must_execute(body, call):
     return g.must_pass(lambda nd: nd is target)
 
 
+def is_transpose(v):
+    """Inner value if ``v`` is ``x.T`` / ``x.transpose()`` / ``np.transpose(x)`` (axes reversed), else None."""
+    if isinstance(v, Opq) and v.tag == "attr:T" and len(v.args) == 1:
+        return v.args[0]
+    if isinstance(v, CallV) and v.name == "transpose" and v.recv is not None and not v.args and not v.kwargs:
+        return v.recv
+    if isinstance(v, CallV) and v.name == "numpy.transpose" and len(v.args) == 1 and not v.kwargs:
+        return v.args[0]
+    return None
+
+
+def row_layout(ctx, repo, cname, res):
+    """The wrapped series transformer receives instance i as a (time x column) array: the *transpose* of X[i]
+    (columns x time), so that cell (i, c) becomes column c; a reshape to the same shape is not a transpose."""
+    if res is None:
+        return
+    it, rets, cands = res
+    cls = repo.cls(COMPOSE + ":" + cname)
+    fn = cls.methods["transform"]
+    loc = ctx.loc(cls.module, fn)
+    c = "%s.transform:cell-layout" % cname
+    n, cc, m = sym("n(X)"), sym("c(X)"), sym("m(X)")
+    X3 = Src("X", "np3", [n, cc, m])
+    calls = {id(x.node): x for x in it.calls if x.name == "fit_transform" and x.loops}
+    if len(calls) != 1:
+        ctx.undecided("R3", c, "expected one fit_transform call per instance, found %d" % len(calls), loc)
+        return
+    cv = list(calls.values())[0]
+    arg = cv.arg(0, "X")
+    inst = [l.var for l in cv.loops if l in cands]
+    inner = is_transpose(arg)
+    verdict = None
+    why = "the wrapped transformer receives %r" % (arg,)
+    if inner is not None:
+        verdict = bool(inst) and inner == Sub(X3, [("i", inst[-1])])
+        if not verdict and not (isinstance(inner, Sub) and inner.base == X3):
+            verdict = None
+    elif isinstance(arg, Sub) and arg.base == X3:
+        verdict = False
+        why = "the wrapped transformer receives X[i] as (columns x time) without the transpose"
+    elif isinstance(arg, CallV) and arg.name in ("reshape", "numpy.reshape", "resize"):
+        base_v = arg.recv if arg.name != "numpy.reshape" else (arg.args[0] if arg.args else None)
+        if isinstance(base_v, Sub) and base_v.base == X3:
+            verdict = False
+            why = ("X[i] (columns x time) is reshaped, not transposed: element (t, c) of the result is the flat element t*C + c of "
+                   "the instance, e.g. for 2 columns x 2 points [[a0, a1], [b0, b1]] the transformer sees rows (a0, a1), (b0, b1) "
+                   "instead of (a0, b0), (a1, b1) -- identical only for univariate panels")
+    ctx.check(verdict, "R3", c, "instance i is handed over as the transpose of X[i]: cell (i, c) is column c, time runs along the rows",
+              why, loc, witness={"argument": repr(arg)})
+    if cname == "SeriesToSeriesRowTransformer":
+        c2 = "%s.transform:result-layout" % cname
+        outs = [e for e in it.events if e.kind == "append" and e.value is not None]
+        verdict, shown = None, None
+        for e in dedupe(outs):
+            v = is_transpose(e.value)
+            if isinstance(v, CallV) and v.name.endswith(".from_2d_array_to_nested") and len(v.args) == 1:
+                shown = v.args[0]
+                back = is_transpose(shown)
+                verdict = back is not None and (back is cv or back == cv)
+                if not verdict and not any(x is cv or x == cv for x in walk(shown)):
+                    verdict = None
+        ctx.check(verdict, "R3", c2, "the transformed instance goes back as (columns x time): one nested row, cell c = column c",
+                  "the transformed instance is nested from %r, expected the transpose of the transformer's result" % (shown,), loc)
+
+
 def r3_all(ctx, repo):
     X = Src("X", "raw")
     W = sym("w")
-    r3_method(ctx, repo, COMPOSE, "SeriesToPrimitivesRowTransformer", "transform", {"X": X}, 1)
-    r3_method(ctx, repo, COMPOSE, "SeriesToSeriesRowTransformer", "transform", {"X": X}, 1)
+    row_layout(ctx, repo, "SeriesToPrimitivesRowTransformer",
+               r3_method(ctx, repo, COMPOSE, "SeriesToPrimitivesRowTransformer", "transform", {"X": X}, 1))
+    row_layout(ctx, repo, "SeriesToSeriesRowTransformer",
+               r3_method(ctx, repo, COMPOSE, "SeriesToSeriesRowTransformer", "transform", {"X": X}, 1))
     r3_method(ctx, repo, PAA, "PAA", "_perform_paa_along_dim", {"X": Src("X", "nested")}, 1, attrs={"num_intervals": sym("k")})
     r3_method(ctx, repo, PAA, "PAA", "transform", {"X": X}, 1, attrs={"num_intervals": sym("k")}, extra_no_inline=("_check_parameters",))
     r3_method(ctx, repo, SLOPE, "SlopeTransformer", "transform", {"X": X}, 1, attrs={"num_intervals": sym("k")},
@@ -1829,6 +1924,6 @@ def run(ctx):
     r2_segmenter_forwarding(ctx, repo)
     r2_options(ctx, repo)
     r3_all(ctx, repo)
-    ctx.floor("R1", 68)
+    ctx.floor("R1", 76)
     ctx.floor("R2", 126)
-    ctx.floor("R3", 67)
+    ctx.floor("R3", 70)
